@@ -166,50 +166,72 @@ func c13Step(ctx *Ctx, lane string, in *Inst, ro map[string]bool, argv []string,
 	return true
 }
 
-// c13Alias mutates the destination written by a store-form command and checks
-// that no other key changes.
+// c13Alias mutates, one after the other, every key a store-form / move command named (its destination and
+// its sources) and checks after each mutation that no OTHER key changed: shared structure between the
+// destination and a source shows up whichever side is written to.
 func c13Alias(ctx *Ctx, in *Inst, argv []string, trace []Step, r *rand.Rand) {
 	name := strings.ToLower(argv[0])
-	dest := argv[1]
-	if name == "lmove" || name == "smove" || name == "rename" {
-		dest = argv[2]
-	}
-	now := in.Clk.NowNs()
-	d0 := in.S.VerifDump()
-	var kind string
-	for _, db := range d0.DBs {
-		if v, ok := db[dest]; ok {
-			kind = v.Type
-		}
-	}
-	var mut []string
-	fresh := fmt.Sprintf("fresh%d", r.Intn(1000))
-	switch kind {
-	case "set":
-		mut = []string{"SADD", dest, fresh}
-	case "zset":
-		mut = []string{"ZADD", dest, "42", fresh}
-	case "list":
-		mut = []string{"RPUSH", dest, fresh}
-	case "hash":
-		mut = []string{"HSET", dest, fresh, "v"}
+	var keys []string
+	switch name {
+	case "lmove", "smove", "rename":
+		keys = []string{argv[2], argv[1]}
 	default:
-		return
-	}
-	before := CanonDump(d0, now)
-	in.Do(mut...)
-	after := CanonDump(in.S.VerifDump(), now)
-	ctx.Eval(1)
-	ctx.Class("alias|" + name + "|" + kind)
-	for _, m := range []map[int]map[string]string{before, after} {
-		for _, db := range m {
-			delete(db, dest)
+		for _, a := range argv[1:] {
+			up := strings.ToUpper(a)
+			if up == "WEIGHTS" || up == "AGGREGATE" || up == "WITHSCORES" || up == "LIMIT" || up == "BYSCORE" || up == "BYLEX" || up == "REV" {
+				break
+			}
+			keys = append(keys, a)
 		}
 	}
-	if d := model.DiffCanon(before, after); d != "" {
-		full := append(append([]Step{}, trace...), Step{Argv: mut})
-		ctx.Violate(Violation{Kind: "alias", Lane: "alias",
-			What: fmt.Sprintf("after %s, mutating the destination with %s changed another key (shared structure): %s", Step{Argv: argv}.String(), Step{Argv: mut}.String(), d),
-			Case: map[string]interface{}{"program": full, "program_text": progStrings(full)}, Key: "c13|alias|" + name})
+	seen := map[string]bool{}
+	for _, key := range keys {
+		if seen[key] {
+			continue
+		}
+		seen[key] = true
+		now := in.Clk.NowNs()
+		d0 := in.S.VerifDump()
+		kind := ""
+		for _, db := range d0.DBs {
+			if v, ok := db[key]; ok {
+				kind = v.Type
+			}
+		}
+		var mut []string
+		fresh := fmt.Sprintf("fresh%d", r.Intn(1000))
+		switch kind {
+		case "set":
+			mut = []string{"SADD", key, fresh}
+		case "zset":
+			mut = []string{"ZADD", key, "42", fresh}
+		case "list":
+			mut = []string{"RPUSH", key, fresh}
+		case "hash":
+			mut = []string{"HSET", key, fresh, "v"}
+		default:
+			continue
+		}
+		before := CanonDump(d0, now)
+		in.Do(mut...)
+		after := CanonDump(in.S.VerifDump(), now)
+		ctx.Eval(1)
+		role := "source"
+		if key == keys[0] {
+			role = "destination"
+		}
+		ctx.Class("alias|" + name + "|" + kind + "|" + role)
+		for _, m := range []map[int]map[string]string{before, after} {
+			for _, db := range m {
+				delete(db, key)
+			}
+		}
+		if d := model.DiffCanon(before, after); d != "" {
+			full := append(append([]Step{}, trace...), Step{Argv: mut})
+			ctx.Violate(Violation{Kind: "alias", Lane: "alias",
+				What: fmt.Sprintf("after %s, writing to its %s with %s changed another key (shared structure): %s", Step{Argv: argv}.String(), role, Step{Argv: mut}.String(), d),
+				Case: map[string]interface{}{"program": full, "program_text": progStrings(full)}, Key: "c13|alias|" + name})
+			return
+		}
 	}
 }
